@@ -39,9 +39,11 @@ impl KeyInit for Aes256 {
 impl BlockEncrypt for Aes256 {
     #[inline]
     fn enc(&self, b: u128) -> u128 {
+        // GF(2)-linear mixing (xor/rotate only): cheap for the SAT back end, still depends on
+        // every key bit and every input bit
         let x = b ^ self.k0;
         let y = x ^ x.rotate_left(29) ^ x.rotate_left(67);
-        y.wrapping_add(self.k1) ^ (y >> 64)
+        y ^ self.k1 ^ (y >> 64)
     }
     fn encrypt_block(&self, block: &mut GenericArray<u8, U16>) {
         let mut a = [0u8; 16];
